@@ -213,6 +213,10 @@ def _focused_case(run_seed, cfg, case):
             new[i] = op.split(":", 1)[1]
         muts.append({"kind": "focus_" + op.split(":")[0], "token": i, "changed": True})
     text = head + "".join(new) + "\nend subroutine zz\n"
+    if rng.derive(run_seed, "focus-form").random() < 0.25:
+        # the same damaged statement in fixed source form (statement field from column 7)
+        text = "".join("      " + ln + "\n" for ln in text.split("\n") if ln)
+        muts.append({"kind": "fixed_form", "changed": False})
     case.update({"std": std, "mode": "parse", "reader": "string", "focused": True,
                  "files": {"main.f90": _l1(text.encode("utf-8"))}, "faults": {},
                  "mutations": muts, "opts": {"ignore_comments": True}})
